@@ -94,7 +94,7 @@ Inductive result :=
 
 (* used = number of solver invocations made; aux = how many of them were made before the main
    loop (MinGenSet lower bound, guessed-weights model); lbk = first k of the main loop *)
-Record outcome := mkout { res : result; used : nat; aux : nat; lbk : nat }.
+Record outcome := mkout { so_res : result; used : nat; aux : nat; lbk : nat }.
 
 (* ---------------------------------------------------------------- the common loop body
    for i in range(lb, |E|):  [model for i obtained without a solver?]  model.solve()
